@@ -156,7 +156,7 @@ func main() {
 				fmt.Fprintf(w, "FULLDIFF hist=%d %s gen=fullapp-%s seed=%d\n", id, d, p, *seed*1000003+uint64(id)*7919+29)
 			}
 		}
-		fmt.Fprintf(w, "FULLSUMMARY histories=%d steps=%d transactions=%d accepted=%d foreign_signatures=%d blocks=%d diffs=%d\n", *n, steps, txs, acceptedTotal, foreignTotal, blocksTotal, diffs)
+		fmt.Fprintf(w, "FULLSUMMARY histories=%d steps=%d transactions=%d accepted=%d foreign_signatures=%d blocks=%d app_exports=%d diffs=%d\n", *n, steps, txs, acceptedTotal, foreignTotal, blocksTotal, appExports, diffs)
 		return
 	}
 	for i := 0; i < *n; i++ {
